@@ -88,7 +88,7 @@ def visit(node, env, pred, out, guards=()):
         for a in node["arms"]:
             e2 = env.child()
             bind_pattern(a["pat"], node["scrut"], e2, env)
-            g2 = guards + (("arm", a, True, node["scrut"], env),)
+            g2 = guards + (("arm", a, True, node["scrut"], env, node),)
             if a.get("guard") is not None:
                 visit(a["guard"], e2, pred, out, g2)
             visit(a["body"], e2, pred, out, g2)
